@@ -17,7 +17,9 @@ RULE = (
     "tells whether control reaches the form and whether the exception escapes; then the innermost traceback frame belonging to the "
     "program's file must report the line of the raising form (a single-line form, so its span is one line; for the template case "
     "the line of the macro call). Covers forms nested in statement-lifted constructs, function bodies, lambdas, both comprehension "
-    "strategies, try/with/loops, at module level and inside a function. Non-trivial = the raising form is nested >= 2 levels below a "
+    "strategies, try/with/loops, at module level and inside a function. Also enumerated: (op= x a b) for every augmented "
+    "operator, where combining a and b raises (the synthesized aggregation form), after 0/1/4 lines, plain / in when / in defn / in let, "
+    "on one line or three: the reported line must lie within the form. Non-trivial = the raising form is nested >= 2 levels below a "
     "statement-producing construct or inside a function/comprehension; distinct by (source)"
 )
 ASSUMPTIONS = ["reference interpreter decides reachability; only cases where it says the BOOM exception escapes are judged"]
@@ -117,7 +119,53 @@ def depth_info(prog, path):
     return n, infn
 
 
+AUG = {"+=": ("s", '"s" 1'), "-=": ("s", '"s" 1'), "*=": ("s", '"s" "t"'), "/=": ("s", '"s" "t"'), "//=": ("s", '"s" "t"'), "**=": ("2", '"s" 2'),
+       "<<=": ("1", '"s" 1'), ">>=": ("1", '"s" 1'), "|=": ("1", '"s" 1'), "&=": ("1", '"s" 1'), "@=": ("1", '"s" 1')}
+
+
+def check_aug(case):
+    """(op= x a b) where combining a and b (the synthesized aggregation) raises TypeError: the innermost frame of the program's
+    file must name a line of the (op= ...) form"""
+    import types
+
+    import hy
+    import hy.compiler
+
+    op, pad, wrap, layout = case["op"], int(case["pad"]), case["wrap"], case["layout"]
+    if op not in AUG or not 0 <= pad <= 8 or wrap not in ("none", "when", "defn", "let") or layout not in ("one-line", "multi-line"):
+        return None
+    a, b = AUG[op][1].split(" ")
+    form = "(%s x %s %s)" % (op, a, b) if layout == "one-line" else "(%s x\n    %s\n    %s)" % (op, a, b)
+    lines = ["(setv pad%d %d)" % (i, i) for i in range(pad)] + ["(setv x 1)"]
+    if wrap == "when":
+        body = "(when True\n  %s)" % form
+    elif wrap == "defn":
+        body = "(defn f []\n  (global x)\n  %s)\n(f)" % form
+    elif wrap == "let":
+        body = "(let [q 1]\n  %s)" % form
+    else:
+        body = form
+    src = "\n".join(lines) + "\n" + body + "\n"
+    start = 1 + src[: src.index("(" + op)].count("\n")
+    end = start + form.count("\n")
+    mod = types.ModuleType("vfprog17a")
+    tree = hy.compiler.hy_compile(hy.read_many(src), mod, filename="<vfprog17a>", source=src)
+    try:
+        exec(compile(tree, "<vfprog17a>", "exec"), mod.__dict__)
+    except TypeError as e:
+        frames = [f for f in traceback.extract_tb(e.__traceback__) if f.filename == "<vfprog17a>"]
+        if not frames:
+            return ("no-frame-in-program-file", dict(source=src))
+        got = frames[-1].lineno
+        if not (start <= got <= end):
+            return ("wrong-line:aggregation-of-augmented-assignment", dict(source=src, expected_lines=[start, end], reported_line=got))
+        return None
+    return ("augmented-assignment-did-not-raise", dict(source=src))
+
+
 def check_case(case):
+    if case.get("kind") == "aug":
+        return check_aug(case)
     prog = case["prog"]
     mode = case.get("mode", "module")
     if '"boom"' not in json.dumps(prog):
@@ -248,6 +296,21 @@ def shard(ctx):
                 ctx.fail(dict(prog=p2, mode=mode), r[0], r[1])
 
     ctx.hyp(strat, one, ctx.per_shard(110, 20000), "programs")
+
+    # augmented assignment with several values: the failure happens in the synthesized aggregation (enumerated, striped over shards)
+    i = 0
+    for op in sorted(AUG):
+        for pad in (0, 1, 4):
+            for wrap in ("none", "when", "defn", "let"):
+                for layout in ("one-line", "multi-line"):
+                    i += 1
+                    if i % ctx.n != ctx.k:
+                        continue
+                    case = dict(kind="aug", op=op, pad=pad, wrap=wrap, layout=layout)
+                    ctx.case(key=json.dumps(case, sort_keys=True), nontrivial=pad > 0, cls=["variant:augmented-assignment-aggregation", "aug:" + wrap], sample="(%s x %s) after %d lines in %s" % (op, AUG[op][1], pad, wrap))
+                    r = check_case(case)
+                    if r is not None:
+                        ctx.fail(case, r[0], r[1])
 
 
 def shrink(case, same, budget):
